@@ -912,8 +912,8 @@ def CheckBlock(block, fCheckPoW = True, fCheckMerkleRoot = True, cur_time=None):
     # it'll be caught by the "more than one coinbase" test.
     unique_txids = set()
     nSigOps = 0
-    for tx in block.vtx[1:]:
-        if tx.is_coinbase():
+    for i, tx in enumerate(block.vtx):
+        if i > 0 and tx.is_coinbase():
             raise CheckBlockError("CheckBlock() : more than one coinbase")
 
         CheckTransaction(tx)
@@ -936,10 +936,12 @@ def CheckBlock(block, fCheckPoW = True, fCheckMerkleRoot = True, cur_time=None):
             root = block.vWitnessMerkleTree[-1]
             # vtx[0]: coinbase
             # vtxinwit[0]: first input
-            nonce_script = block.vtx[0].wit.vtxinwit[0].scriptWitness
-            nonce = nonce_script.stack[0]
-            if len(nonce_script.stack) != 1 or len(nonce) != 32:
+            if not block.vtx[0].wit.vtxinwit:
                 raise CheckBlockError("CheckBlock() : invalid coinbase witnessScript")
+            nonce_script = block.vtx[0].wit.vtxinwit[0].scriptWitness
+            if len(nonce_script.stack) != 1 or len(nonce_script.stack[0]) != 32:
+                raise CheckBlockError("CheckBlock() : invalid coinbase witnessScript")
+            nonce = nonce_script.stack[0]
             try:
                 index = block.get_witness_commitment_index()
             except ValueError as e:
